@@ -183,12 +183,32 @@ T = {
              "unsigned integer type with an odd digit count (wide_integer<7, unsigned>, elastic / static over it), operand in the upper half of the range: sqrt(64..127) == 7", ["C19"]),
  "M-C18-5": ("C18", "countl_rsb(long long) calls __builtin_clrsb instead of __builtin_clrsbll: only the low 32 bits are counted (bit.h, GCC specialisation)",
              "GCC configuration, T exactly long long (int64_t is long here): countl_rsb / countl_rb / countr_used of any value", ["C18"]),
+ "M-C10-4": ("C10", "Knuth division, step D3: the q_hat correction loop exits on < instead of <=, so q_hat is decremented once more on equality (ckormanyos/uintwide_t.h)",
+             "multi-limb wide_integer, divisor of at least two limbs, operands hitting the equality (exact multiples of a 2-limb divisor, (v << k*limb_bits) / v): (5*v)/v == 4", ["C10", "C02"]),
+ "M-C01-6": ("C01", "elastic scale<> (non-negative shift): the intermediate type of rep * 2^shift chosen from digits + shift - 1 (elastic_integer/scale.h)",
+             "scaled_integer over elastic_integer<D> with + or - on different exponents, D + |exponent difference| exactly 32 or 64, larger-exponent rep using its top digit", ["C01", "C05", "C04"]),
+ "M-C20-3": ("C20", "rounding_conversion drops its + 1: the exp2 polynomial coefficients are truncated instead of rounded to nearest (scaled_integer/math.h)",
+             "exp2 on int32 formats with about 16 or more fractional digits, large fractional part, result near the top of the range: off by 2-3 units where the original is within 1", ["C20"]),
+ "M-C03-5": ("C03", "uintwide_t::operator<= returns compare(other) < 0 (ckormanyos/uintwide_t.h)",
+             "two EQUAL multi-limb wide_integer values (or scaled_integer over them): a <= b is false", ["C03", "C10", "C12"]),
+ "M-C16-5": ("C16", "fraction operator/: denominator lhs.denominator * rhs.numerator written as rhs.denominator * rhs.numerator (fraction/operators.h)",
+             "division of fractions with different denominators: (1/2) / (1/3) == 3/3", ["C16"]),
+ "M-C12-5": ("C12", "built-in << / >> wrapper gains a trailing return type Lhs: the promoted result is narrowed back to the left operand's type (wrapper/shift_operator.h)",
+             "built-in left operand narrower than int shifted by a native-tag wrapper: uint8_t{200} << W{1} == 144, and the result type is uint8_t", ["C12"]),
+ "M-C04-6": ("C04", "elastic scale<> (negative shift): the divisor 1 << k built in a type of WIDTH k + 1, one digit short for signed narrowest types (elastic_integer/scale.h)",
+             "scaled_integer over a signed elastic_integer<N>, N > 31, conversion dropping exactly 31 (or 63) binary digits: 5.75 -> -5", ["C04", "C09", "C01"]),
 }
 
 
 # id -> what happened when the change was first run against the checks, and what was strengthened because of it
 HIST = {
  "M-C10-2": "missed at first (limb arithmetic was declared undecided): the limb algebra (vlib/limbalg.py) was written for it; C10 now re-expresses + - * unary- ++ -- << >> of 8 (q) / 70 multi-limb instantiations as integer polynomials over the limbs and reports this change with a counterexample on the fast path (b2 == 0, b3 != 0)",
+ "M-C10-4": "NOT reported: inside Knuth's division (see M-C04-5)",
+ "M-C01-6": "missed at first: no elastic rep with digits + shift at a 32 / 64 boundary was in the matrix; six boundary pairs added (which needed one more normaliser rule: sign extension of a shift through an immaterial zero extension)",
+ "M-C20-3": "missed at first (the coefficient certificate's necessary bound is 12 units, the change moves coefficients by one): rounding_conversion == round-to-nearest is now an EQ obligation over all doubles in [0, 1)",
+ "M-C03-5": "reported at first only as analysis-broken (exit 2): the residue of `<=` is non-zero only for EQUAL operands, which independent random limbs never are; the witness search now also tries equal and nearly equal operands",
+ "M-C12-5": "missed at first: no kernel had a built-in LEFT operand shifted by a wrapper; added with the result-type facts",
+ "M-C04-6": "missed at first: elastic reps narrowing the exponent by exactly 31 / 63 digits were not in the matrix; boundary conversions added",
  "M-C09-5": "missed at first (floating-point value semantics were declared undecided): the floor step of the floating -> integer conversions is now an EQ obligation (kernel == t - [x < t], t = trunc x) resting on two facts about truncation the normaliser knows; the first version of the rule raised a false alarm on the stored refactors E-C09-1/3, corrected before it was committed",
  "M-C02-5": "missed at first by C02 (reported by C05's operand-widening kernels): elastic / and % kernels whose dividend needs a wider machine type than the remainder added to C02",
  "M-C11-5": "missed at first: no check had ++ / -- of the overflow layer; prefix and postfix increment / decrement lines added to C06 and C07 (C11 establishes the layering and leaves each layer's operators to its owner)",
